@@ -2,8 +2,39 @@ package main
 
 import (
 	"fmt"
-	"github.com/bnb-chain/tss-lib/v2/common"
-	"math/big"
+	"os"
+	"strconv"
+	"time"
+
+	"verif/internal/explore"
+	"verif/internal/fix"
+	"verif/internal/netrun"
 )
 
-func main() { fmt.Println(common.SHA512_256i(big.NewInt(1))) }
+func main() {
+	n, _ := strconv.Atoi(os.Args[1])
+	dups, _ := strconv.Atoi(os.Args[2])
+	t0 := time.Now()
+	mk := func() *netrun.Network {
+		nw, err := netrun.New(netrun.Config{Proto: netrun.EddsaKeygen, Keys: fix.SmallKeys(n), Threshold: 1})
+		if err != nil {
+			panic(err)
+		}
+		return nw
+	}
+	s := explore.NewSys(mk)
+	res := s.Explore(explore.Options{Workers: 16, MaxDups: dups})
+	fmt.Printf("states=%d trans=%d depth=%d terminals=%d localtrans=%d nonconf=%d  %.1fs\n", res.States, res.Transitions, res.MaxDepth, len(res.Terminals), s.LocalTransitions, s.NonConfluent, time.Since(t0).Seconds())
+	for p := range s.Tabs {
+		fmt.Printf(" node %d local states %d\n", p, len(s.Tabs[p]))
+	}
+	for _, g := range res.Terminals {
+		tr := res.Trace(g)
+		mm, _ := s.JointReplay(tr)
+		fmt.Println(" terminal depth", g.Depth, "joint mismatch:", mm)
+		for p := 0; p < s.N; p++ {
+			l := s.Local(g, p)
+			fmt.Printf("   node %d ends=%d errs=%d round=%d waiting=%v\n", p, len(l.Obs.Ends), len(l.Obs.Errs), l.Obs.Round, l.Obs.Waiting)
+		}
+	}
+}
